@@ -66,6 +66,19 @@ def offsets():
     )
 
 
+@st.composite
+def stamps(draw):
+    """(instant us, offset minutes) of a timestamp whose LOCAL date lies in 1970..2100: east of Greenwich the first hours of
+    1970-01-01 are instants before the epoch (1970-01-01T03:00+10:00 is 1969-12-31T17:00Z), so the instant may be negative."""
+    off = draw(offsets())
+    if off > 0 and draw(st.integers(0, 9)) == 0:
+        span = off * 60 * 10**6
+        us = -draw(st.one_of(st.integers(1, span), st.sampled_from([1, 500, 999, 1000, 1001, 10**6, span - 1, span])))
+    else:
+        us = draw(instants())
+    return us, off
+
+
 def durations_us(max_us=30 * DAY_US, negative=False):
     base = st.one_of(
         st.sampled_from([0, 1, 999, 1000, 1001, 10**6 - 1, 10**6, 10**6 + 1, 60 * 10**6, DAY_US, DAY_US - 1]),
